@@ -313,6 +313,9 @@ class ExpansionData:
         return target
 
     def _setExpansionTarget(self, b: "Block", target: "Component"):
+        # a block has one target: a component of this block designated earlier no longer is
+        for c in b:
+            self._componentDeterminesBlockHeight.pop(c, None)
         self._componentDeterminesBlockHeight[target] = True
         b.p.axialExpTargetComponent = target.name
 
